@@ -4,7 +4,7 @@ import random
 
 from engine import tlc, core, tracecheck
 
-ACTIONS = ["Miss", "CtrlAction", "Use", "PacketOutData", "SetConfig"]
+ACTIONS = ["Miss", "CtrlAction", "Use", "PacketOutData", "MissViaTable", "SetConfig"]
 ADAPTER = "harness.adapters_c18:Adapter"
 
 
@@ -96,6 +96,9 @@ def drive(arg):
     elif k < 0.75:
       a = rnd.choice(["PacketOut", "FlowMod"])
       args = dict(buf=rnd.choice([0, 1, 2, 3, 4, 10]), act=rnd.choice(ACTS))
+    elif k < 0.8:
+      a = "MissViaTable"
+      args = dict(f=rnd.choice("ab"), p=rnd.randint(1, 3))
     elif k < 0.9:
       a = "PacketOutData"
       args = dict(f=rnd.choice("ab"), p=rnd.randint(1, 3), act=rnd.choice(ACTS))
@@ -111,6 +114,10 @@ def drive(arg):
       wf = wf and set(obs) == {"buf", "total", "dataLen", "inport", "reason"} and isinstance(obs["buf"], int)
       if not wf:
         obs = dict(buf=-1, total=-1, dataLen=-1, inport=-1, reason="bad")
+    elif a == "MissViaTable":
+      wf = wf and set(obs) == {"buf", "total", "dataLen", "inport", "reason", "emitted"} and isinstance(obs["buf"], int)
+      if not wf:
+        obs = dict(buf=-1, total=-1, dataLen=-1, inport=-1, reason="bad", emitted=[])
     elif a != "SetConfig":
       wf = wf and set(obs) == {"emitted"}
       if not wf:
